@@ -92,6 +92,14 @@ func drawNCase(t *rapid.T, o nOpts) sim.NCase {
 			c.Steps = append(c.Steps, sim.NStep{K: "timeout"})
 		}
 	}
+	if o.Scenarios && o.Focus == "C08" && rapid.IntRange(0, 5).Draw(t, "borrowed-share?") == 0 {
+		// scenario: a member's genuine COMMIT is processed first, then another member's COMMIT arrives carrying THAT member's share bytes
+		i := rapid.IntRange(0, 7).Draw(t, "first-committer")
+		j := i + rapid.IntRange(1, 3).Draw(t, "second-committer")
+		va := rapid.IntRange(0, 2).Draw(t, "commit-view")
+		c.Steps = append(c.Steps, sim.NStep{K: "cand", Kind: "C", From: i, A: va})
+		c.Steps = append(c.Steps, sim.NStep{K: "cand", Kind: "C", From: j, A: va, Muts: []sim.Mutation{{K: "share", A: 2 + 4*i}}})
+	}
 	if o.Scenarios && rapid.IntRange(0, 4).Draw(t, "next-height?") == 0 {
 		// scenario: candidates built for the NEXT height arrive while the node is still one height behind (future cache), then the
 		// node completes its height and the cache is drained into the new term (judged by the store-time invariants)
